@@ -196,4 +196,227 @@ theorem C20_trampoline_runs_on (fn : List α → StepOut α) (fuel : Nat) (s : L
     rw [List.find?_eq_none]; intro x hx; simp at hx; simp [h x hx]
   rw [this]
 
+/-! ## CurryDef: any interleaving of atomic steps of any number of goroutines, plus MarkDone at any moment -/
+
+/-- Arguments accumulate in lock order: `args` is the concatenation of the argument lists of the Calls
+    that passed the done-check (`hist`), these are a subsequence of all Calls in lock-acquisition order,
+    and as long as nobody marked done no Call was skipped. -/
+theorem C20_curry_accumulates (fn : CurryFn) (scripts : List (List (List Int))) (c : Curry)
+    (r : CReach fn (Curry.init scripts) c) :
+    c.args = c.hist.flatten ∧ c.hist.Sublist c.lockOrder ∧
+    (c.cur = none → c.isDone = false → c.hist = c.lockOrder) := by
+  have inv := cinv_reach (cinv_init fn scripts) r
+  refine ⟨inv.args_eq, ?_, ?_⟩
+  · have hs := inv.shape
+    unfold CShape at hs
+    split at hs
+    · exact hs.1
+    · obtain ⟨lo, h1, h2, _⟩ := hs; rw [h1]; exact h2.trans (List.sublist_append_left lo _)
+    · obtain ⟨lo, h1, h2, _⟩ := hs; rw [h1, h2]; exact List.sublist_append_left lo _
+    · obtain ⟨lo, h1, h2, _⟩ := hs; rw [h1, h2]; exact List.Sublist.refl _
+    · exact hs.1
+  · intro hcur hd
+    have hs := inv.shape
+    simp only [CShape, hcur] at hs
+    exact hs.2.2 hd
+example : CReach (curryFn 3) (Curry.init [[[1], [2]], [[3]]])
+    ((Curry.init [[[1], [2]], [[3]]]).markDone) := .step (.refl _) .markDone
+
+/-- `fn` is invoked once per accepted Call, with all arguments so far: the i-th invocation saw exactly
+    the concatenation of the first i+1 accepted Calls; the number of invocations equals the number of
+    accepted Calls (minus the one whose invocation is in progress). -/
+theorem C20_curry_fn_once_per_call (fn : CurryFn) (scripts : List (List (List Int))) (c : Curry)
+    (r : CReach fn (Curry.init scripts) c) :
+    (∀ i, i < c.log.length → c.log[i]? = some ((c.hist.take (i + 1)).flatten)) ∧
+    c.log.length ≤ c.hist.length ∧ c.hist.length ≤ c.log.length + 1 ∧
+    (c.cur = none → c.log.length = c.hist.length) := by
+  have inv := cinv_reach (cinv_init fn scripts) r
+  have hs := inv.shape
+  have hplen : ∀ h, (prefixes h).length = h.length := fun h => prefixesFrom_length [] h
+  have main : ∀ h, c.log = prefixes h →
+      (∀ i, i < c.log.length → c.log[i]? = some ((h.take (i + 1)).flatten)) ∧ c.log.length = h.length := by
+    intro h hl
+    refine ⟨fun i hi => ?_, by rw [hl, hplen]⟩
+    rw [hl] at hi ⊢
+    exact prefixes_getElem? h i (by rwa [hplen] at hi)
+  unfold CShape at hs
+  split at hs
+  · obtain ⟨m1, m2⟩ := main _ hs.2.1; exact ⟨m1, by omega, by omega, fun _ => m2⟩
+  · rename_i hcur; obtain ⟨lo, _, _, h3, _⟩ := hs; obtain ⟨m1, m2⟩ := main _ h3
+    exact ⟨m1, by omega, by omega, fun h => by simp [hcur] at h⟩
+  · rename_i hcur; obtain ⟨lo, _, _, h3⟩ := hs; obtain ⟨m1, m2⟩ := main _ h3
+    exact ⟨m1, by omega, by omega, fun h => by simp [hcur] at h⟩
+  · rename_i a hcur; obtain ⟨lo, _, h2, h3⟩ := hs; obtain ⟨m1, m2⟩ := main _ h3
+    refine ⟨fun i hi => ?_, by rw [h2]; simp; omega, by rw [h2]; simp; omega, fun h => by simp [hcur] at h⟩
+    rw [m1 i hi, h2, List.take_append_of_le_length (by omega)]
+  · obtain ⟨m1, m2⟩ := main _ hs.2.1; exact ⟨m1, by omega, by omega, fun h => by rename_i hcur; simp [hcur] at h⟩
+
+/-- `Result` is the value returned by the last invocation of `fn` (the zero value before the first). -/
+theorem C20_curry_result (fn : CurryFn) (scripts : List (List (List Int))) (c : Curry)
+    (r : CReach fn (Curry.init scripts) c) :
+    c.result = match c.log.getLast? with | none => 0 | some l => (fn l).1 :=
+  (cinv_reach (cinv_init fn scripts) r).result_eq
+
+/-- After `MarkDone` (by `fn` itself or by anybody), once the Call in progress (if any) is over, `Result`,
+    the accumulated arguments and the set of invocations are frozen for every continuation. -/
+theorem C20_curry_frozen (fn : CurryFn) (c c' : Curry) (hdone : c.isDone = true)
+    (hquiet : c.cur = none ∨ ∃ a, c.cur = some (.checking, a) ∨ c.cur = some (.unlocking, a))
+    (r : CReach fn c c') :
+    c'.isDone = true ∧ c'.args = c.args ∧ c'.result = c.result ∧ c'.log = c.log := by
+  obtain ⟨hq, h1, h2, h3, _⟩ := quiet_reach ⟨hdone, hquiet⟩ r
+  exact ⟨hq.1, h1, h2, h3⟩
+example : (Curry.init [[[1]]]).markDone.isDone = true ∧ (Curry.init [[[1]]]).markDone.cur = none := ⟨rfl, rfl⟩
+
+/-- A sequential `Call` (the same atoms run back to back — what the driver executes for `cu` cases) is a
+    path of the transition system and refines the Spec: append, invoke with all arguments, store the
+    result — or nothing at all once done. -/
+theorem C20_curry_call_sequential (fn : CurryFn) (c : Curry) (a : List Int) (hcur : c.cur = none) :
+    CReach fn { c with pending := [[a]] } (c.callSeq fn a) ∧
+    (c.callSeq fn a).abs = c.abs.call fn a ∧ (c.callSeq fn a).cur = none :=
+  ⟨callSeq_reach fn c a hcur, callSeq_abs fn c a hcur⟩
+example : (Curry.init []).cur = none := rfl
+
+/-- the protocol shape the transition system assumes for `Call` (lock; done-check; append; invoke; store;
+    unlock) is the one the extractor finds in fp.go on this run -/
+def expectedCallSkeleton : String :=
+  "call(callM.Lock) if[get(isDone) call(isDone.Get)]{get(args) call(append) set(args) get(args) callfn(fn) set(result)} call(callM.Unlock) return"
+
+theorem C20_curry_call_skeleton :
+    FpgoVerif.Gen.skeletonOf "CurryDef.Call" = some expectedCallSkeleton ∧
+    FpgoVerif.Gen.skeletonOf "CurryDef.MarkDone" = some "get(isDone) call(isDone.Set)" ∧
+    FpgoVerif.Gen.skeletonOf "CurryDef.IsDone" = some "get(isDone) call(isDone.Get) return" ∧
+    FpgoVerif.Gen.skeletonOf "CurryDef.Result" = some "get(result) return" := by
+  decide +kernel
+
+/-! ## Sum / product / nil types and NewCompData -/
+
+/-- the loops of `SumType/ProductType/NilType.Matches` decide exactly "the arguments match the type" -/
+theorem C20_comptype_matches (t : CompType) (vs : List Atom) : t.matches vs = Spec.typeMatches t vs :=
+  matches_eq t vs
+
+/-- `NewCompData` returns a value iff its arguments match the declared type; the value holds exactly the
+    arguments, and `MatchCompType` on it decides the same relation. -/
+theorem C20_compdata (t : CompType) (vs : List Atom) :
+    ((newCompData t vs).isSome = true ↔ Spec.typeMatches t vs = true) ∧
+    (∀ o, newCompData t vs = some o → o = vs ∧ matchCompType t o = true) ∧
+    (∀ t', matchCompType t' vs = Spec.typeMatches t' vs) := by
+  refine ⟨?_, ?_, fun t' => matches_eq t' vs⟩
+  · unfold newCompData; rw [matches_eq]; split <;> simp_all
+  · intro o h
+    unfold newCompData at h
+    split at h
+    · rename_i hm; injection h with h; subst h; exact ⟨rfl, hm⟩
+    · cases h
+example : newCompData (.sum [.nilT, .prod [2, 24]]) [.int 2 1, .str false "x"] = some [.int 2 1, .str false "x"] := by decide
+
+/-! ## MatchFor / Either: first match in list order, panic exactly when none -/
+
+/-- each pattern's `Matches` decides the property's test (equality patterns holding comparable values) -/
+theorem C20_pattern_accepts (rx : String → String → Bool) (p : Pat) (v : GoVal) (h : p.inScope = true) :
+    p.matches rx v = .ok (Spec.accepts rx p v) := by
+  cases p with
+  | kind k =>
+    simp only [Pat.matches, Spec.accepts]
+    cases v.isNil
+    · simp only [Bool.false_eq_true, if_false, Bool.not_false, Bool.true_and]
+      congr 1
+      by_cases hk : k = v.valueKind
+      · rw [hk]
+      · have h1 : (k == v.valueKind) = false := by simp [hk]
+        have h2 : (v.valueKind == k) = false := by simp [Ne.symm hk]
+        rw [h1, h2]
+    · simp
+  | equal pv => exact goEq_comparable pv v h
+  | regex r =>
+    simp only [Pat.matches, Spec.accepts]
+    cases hc : (v.isNil || v.valueKind != kString) with
+    | true =>
+      have : v.text = none := by
+        cases ht : v.text with
+        | none => rfl
+        | some s =>
+          have := (text_some_iff v).mpr (by simp [ht])
+          rw [hc] at this; cases this
+      simp [this]
+    | false =>
+      have := (text_some_iff v).mp hc
+      cases ht : v.text with
+      | none => simp [ht] at this
+      | some s => simp
+  | sumT t =>
+    simp only [Pat.matches, Spec.accepts]
+    cases v <;> simp [matchCompType, matches_eq]
+  | otherwise => rfl
+
+/-- `MatchFor ps v` applies the effect of the first pattern (in list order) that accepts the value the
+    patterns see, to that value; it panics exactly when no pattern accepts. -/
+theorem C20_match (rx : String → String → Bool) (ps : List Pattern) (v : GoVal)
+    (h : ∀ p ∈ ps, p.pat.inScope = true) : matchFor rx ps v = Spec.matchFor rx ps v := by
+  induction ps with
+  | nil => rfl
+  | cons p rest ih =>
+    have hp := C20_pattern_accepts rx p.pat (Spec.view v) (h p (by simp))
+    have ih' := ih (fun q hq => h q (by simp [hq]))
+    simp only [matchFor, preprocess_eq_view, hp, Spec.matchFor, List.find?_cons]
+    cases hacc : Spec.accepts rx p.pat (Spec.view v) with
+    | true => simp
+    | false => simpa [Spec.matchFor] using ih'
+example : ∀ p ∈ [(⟨.kind 2, 0⟩ : Pattern), ⟨.equal (.atom (.str false "a")), 1⟩, ⟨.otherwise, 2⟩], p.pat.inScope = true := by
+  decide
+
+/-- least-index form: the result is effect `e` on `w` iff the list splits as `pre ++ p :: post` with no
+    pattern of `pre` accepting, `p` accepting, `e` = `p`'s effect and `w` the value the patterns see. -/
+theorem C20_match_first (rx : String → String → Bool) (ps : List Pattern) (v : GoVal)
+    (h : ∀ p ∈ ps, p.pat.inScope = true) (e : Nat) (w : GoVal) :
+    matchFor rx ps v = .ok (e, w) ↔
+      ∃ pre p post, ps = pre ++ p :: post ∧ (∀ q ∈ pre, Spec.accepts rx q.pat (Spec.view v) = false) ∧
+        Spec.accepts rx p.pat (Spec.view v) = true ∧ e = p.eff ∧ w = Spec.view v := by
+  rw [C20_match rx ps v h]
+  unfold Spec.matchFor
+  constructor
+  · intro hm
+    cases hf : ps.find? (fun p => Spec.accepts rx p.pat (Spec.view v)) with
+    | none => rw [hf] at hm; cases hm
+    | some p =>
+      rw [hf] at hm
+      injection hm with hm
+      injection hm with h1 h2
+      obtain ⟨hacc, pre, post, hsplit, hpre⟩ := List.find?_eq_some_iff_append.mp hf
+      exact ⟨pre, p, post, hsplit, fun q hq => by simpa using hpre q hq, hacc, h1.symm, h2.symm⟩
+  · rintro ⟨pre, p, post, hsplit, hpre, hacc, he, hw⟩
+    have : ps.find? (fun p => Spec.accepts rx p.pat (Spec.view v)) = some p :=
+      List.find?_eq_some_iff_append.mpr ⟨hacc, pre, post, hsplit, fun q hq => by simp [hpre q hq]⟩
+    rw [this, he, hw]
+
+/-- it panics iff no pattern accepts; in particular never when the list contains `Otherwise` -/
+theorem C20_match_panic_iff (rx : String → String → Bool) (ps : List Pattern) (v : GoVal)
+    (h : ∀ p ∈ ps, p.pat.inScope = true) :
+    matchFor rx ps v = .panic ↔ ∀ p ∈ ps, Spec.accepts rx p.pat (Spec.view v) = false := by
+  rw [C20_match rx ps v h]
+  unfold Spec.matchFor
+  cases hf : ps.find? (fun p => Spec.accepts rx p.pat (Spec.view v)) with
+  | none =>
+    simp only [true_iff]
+    intro p hp
+    have := List.find?_eq_none.mp hf p hp
+    simpa using this
+  | some p =>
+    simp only [reduceCtorEq, false_iff]
+    intro hall
+    have hmem := List.mem_of_find?_eq_some hf
+    have hacc := List.find?_some hf
+    rw [hall p hmem] at hacc
+    cases hacc
+
+theorem C20_otherwise_catches_everything (rx : String → String → Bool) (ps : List Pattern) (v : GoVal)
+    (h : ∀ p ∈ ps, p.pat.inScope = true) (e : Nat) (ho : (⟨.otherwise, e⟩ : Pattern) ∈ ps) :
+    matchFor rx ps v ≠ .panic := by
+  intro hp
+  have := (C20_match_panic_iff rx ps v h).mp hp _ ho
+  simp [Spec.accepts] at this
+
+/-- `Either(v, ps...)` is `MatchFor` -/
+theorem C20_either (rx : String → String → Bool) (ps : List Pattern) (v : GoVal) :
+    either rx v ps = matchFor rx ps v := rfl
+
 end FpgoVerif.C20
